@@ -329,9 +329,10 @@ fn main() {
         drain_events()
     };
     let mut faults = 0u64;
+    let lite = cfg!(miri) || args.extra.iter().any(|x| x == "--lite");
     let mut emit = |log: &mut Log, case: &Value, src: &str, faults: &mut u64| {
         let _ = drain_events();
-        let mut ev = run_history(case, &mut window);
+        let mut ev = run_history_opt(case, &mut window, lite);
         // everything the history allocated is gone by now; late frees of harness temporaries included
         let late = drain_events();
         if let (Some(a), Some(b)) = (ev["alend"].as_array().cloned(), late.as_array()) {
